@@ -152,8 +152,9 @@ def replay_history(arg):
                 params = GeophiresInputParameters(dict(OVR_PARAMS), from_file_path=path) if kind in ('ovrA', 'ovrB') else GeophiresInputParameters(from_file_path=path)
                 if kind.startswith('rewrite') and reuse_object and last.get('params') is not None:
                     params = last['params']
-                last['params'] = params if (mode == 'c' or kind.startswith('rewrite')) and kind not in ('ovrA', 'ovrB') else last.get('params')
-                if mode == 'c' or kind.startswith('rewrite'):
+                plain_file_request = (mode == 'c' or kind.startswith('rewrite')) and kind not in ('ovrA', 'ovrB')
+                last['params'] = params if plain_file_request else last.get('params')
+                if plain_file_request:      # (path, content, request object) of the last plain-file request move together; override requests have their own fixed path
                     last['path'], last['kind'] = path, content_kind
                 result = clients[mode].get_geophires_result(params)
                 # the returned object's own (parsed) content is what the caller is given; its report file may since have been
